@@ -77,16 +77,24 @@ def _run_timed(case, inject_iter):
     out = Outcome()
     d, tau, c, kind, e = case["d"], case["tau"], case["c"], case["outcome"], case.get("e", 2)
     steps = max(1, case.get("steps", 1))
+    bg = case.get("bg")  # {"lead": the background call starts this much earlier, "d": its duration, "out": "value"|"exc"}
     t0 = case.get("t0", 0)  # the call starts at absolute time t0 (a dyadic fraction: the loop clock is not at a round value)
     flags: dict = {"started": None, "cancel_seen": None, "ended": None, "cancel_count": 0}
     holder: dict = {}
     val = object()
     err = FnErr("fn")
     base = FnBase("fn")
-    t_end = max(d, tau, c or 0) + e + 3
+    t_end = max(d, tau, c or 0, (case.get("bg") or {}).get("d", 0)) + e + 3
 
     async def main(loop):
         async def fn(x, *, k):
+            if x == "bg":
+                # an unrelated, overlapping call of the SAME decorated function: it ends (by itself) while the judged
+                # call is in flight and must not touch the judged call's deadline, outcome or cancellation
+                await asyncio.sleep(bg["d"])
+                if bg.get("out") == "exc":
+                    raise FnErr("bg")
+                return "bg"
             flags["started"] = loop.time()
             flags["args"] = (x, k)
             try:
@@ -97,7 +105,7 @@ def _run_timed(case, inject_iter):
                         for _ in range(steps):
                             await asyncio.sleep(d / steps)
                 except asyncio.CancelledError:
-                    flags["cancel_seen"] = loop.time() - t0
+                    flags["cancel_seen"] = loop.time() - holder.get("origin", t0)
                     flags["cancel_count"] += 1
                     if kind == "ignore":
                         await asyncio.sleep(e)
@@ -129,11 +137,24 @@ def _run_timed(case, inject_iter):
 
         if t0:
             await asyncio.sleep(t0)
+        if bg is not None:
+            # the background call starts `lead` before the judged one (t0 is the judged call's start)
+
+            async def bg_caller():
+                try:
+                    obs["bg"] = ("ret", await wrapped("bg", k=8))
+                except BaseException as exc:  # noqa: BLE001 - the observation
+                    obs["bg"] = ("exc", exc)
+
+            bg_task = loop.create_task(bg_caller())
+            await asyncio.sleep(bg["lead"])
         task = loop.create_task(caller())
-        task.add_done_callback(lambda t: obs.setdefault("t", loop.time() - t0))
+        origin = t0 + (bg["lead"] if bg is not None else 0)  # absolute start time of the judged call
+        task.add_done_callback(lambda t: obs.setdefault("t", loop.time() - origin))
         holder["task"] = task
+        holder["origin"] = origin
         if c is not None:
-            loop.call_at(t0 + c, task.cancel)
+            loop.call_at(origin + c, task.cancel)
         await asyncio.sleep(t_end)
         obs["done"] = task.done()
         if task.done():
@@ -252,6 +273,13 @@ def _run_timed(case, inject_iter):
         out.violate("cleanup", f"C16.cleanup/function-still-running/{sig_kind}", f"{flags}")
     if obs["fn_tasks_alive"]:
         out.violate("cleanup", f"C16.cleanup/tasks-left-running/{sig_kind}", repr(obs["fn_tasks_alive"])[:300])
+    if bg is not None:
+        # the overlapping call has its own, independent outcome
+        want = ("TimeoutError",) if bg["d"] > tau else (("FnErr",) if bg.get("out") == "exc" else ("bg",))
+        got_bg = obs.get("bg")
+        got_name = None if got_bg is None else (got_bg[1] if got_bg[0] == "ret" else type(got_bg[1]).__name__)
+        if bg["d"] != tau and got_name not in want:
+            out.violate("outcome", f"C16.outcome/overlapping-call-disturbed/{sig_kind}", f"background call (d={bg['d']}, tau={tau}) ended with {got_bg!r}, expected {want}")
     if flags.get("args") not in (None, (7, 8)):
         out.violate("outcome", "C16.outcome/arguments-changed", repr(flags.get("args")))
     if res.errors:
@@ -282,6 +310,10 @@ def enumerate_cases(tier):
     # loop clock stands): half-integer durations around integer timeouts, with and without a caller cancellation
     for t0, d, tau, c, kind in itertools.product([1 / 128, 37 / 128], [0.5, 1.5, 2.5], [0.5, 1, 2], [None, 1, 2], KINDS):
         yield {"d": d, "steps": 1, "outcome": kind, "e": 2, "tau": tau, "c": c, "t0": t0}
+    # two overlapping calls of ONE decorated function: an earlier call ends (value / exception / its own timeout) while the
+    # judged call is in flight
+    for lead, dbg, out_bg, d, tau, c, kind in itertools.product([0.5, 1], [0.25, 1.5], ["value", "exc"], [1, 3], [1, 2], [None, 1.5], KINDS):
+        yield {"d": d, "steps": 1, "outcome": kind, "e": 2, "tau": tau, "c": c, "bg": {"lead": lead, "d": lead + dbg, "out": out_bg}}
     if tier == "thorough":
         for d, tau, c, kind, steps in itertools.product([1, 2, 4], [1, 2, 3], [None, 0, 1, 2, 3, 4], KINDS, [2, 4]):
             yield {"d": d, "steps": steps, "outcome": kind, "e": 1, "tau": tau, "c": c}
@@ -290,7 +322,7 @@ def enumerate_cases(tier):
 def strategy(tier):
     eighth = st.integers(0, 48).map(lambda n: n / 8)
     return st.builds(
-        lambda d, steps, kind, e, tau, c, t0: {"d": d, "steps": steps, "outcome": kind, "e": e, "tau": tau, "c": c, "t0": t0},
+        lambda d, steps, kind, e, tau, c, t0, bg: {"d": d, "steps": steps, "outcome": kind, "e": e, "tau": tau, "c": c, "t0": t0, "bg": bg},
         eighth,
         st.sampled_from([1, 2, 4]),
         st.sampled_from(KINDS),
@@ -298,6 +330,11 @@ def strategy(tier):
         st.integers(0, 48).map(lambda n: n / 8),
         st.one_of(st.none(), eighth),
         st.sampled_from([0, 0, 1 / 128, 37 / 128, 0.375, 5 / 1024, 1.0, 100 + 1 / 64]),
+        st.one_of(
+            st.none(),
+            st.none(),
+            st.builds(lambda lead, dbg, o: {"lead": lead, "d": lead + dbg, "out": o}, st.sampled_from([0.125, 0.5, 1]), st.sampled_from([0.125, 0.25, 1.5, 2.5]), st.sampled_from(["value", "exc"])),
+        ),
     )
 
 
